@@ -315,6 +315,10 @@ func main() {
 		}
 	}
 
-	semanticSearch(rep, entries, order)
+	var fns []semFn
+	for _, c := range cases {
+		fns = append(fns, semFn{f: c.f, key: c.key})
+	}
+	semanticSearch(rep, fns)
 	rep.Finish()
 }
